@@ -98,7 +98,7 @@ CHECKS = {
                 "same input state; substituting encrypt's output-byte terms for decrypt's input bytes, decrypt's output equals the plaintext bit for bit and its state equals encrypt's (a 0x7F mask, "
                 "a sign extension, a one-sided constant is refuted); the only length store is mlen+8 / clen-8; cursors and remaining length (or one index over full words plus the left-over count) advance in lock-step through one or several "
                 "data loops, the tag sits right after the data and survives, every input byte is loaded before the same output offset is stored; decrypt returns check_tag's verdict on the tag just generated."
-                " Structure is recognised first (pointer-walking or index-based loops, bulk loops, merged tails); an unrecognised shape ends in exit 2, never in a verdict. Code that tests buffer alignment is followed per alignment class (alternative chains of data loops; every way through encrypt paired with every way through decrypt); R-C01-SETUPFN: the shared setup function computes the same state from the nonce bytes on every path class; R-C01-NOSTATE: no function reachable from the entry points refers to writable global state. R-C01-SMALL: every message length 0..100 as straight paths - length stored, exactly the output bytes written, tag position, load before store per offset, no read outside the input.",
+                " Structure is recognised first (pointer-walking or index-based loops, bulk loops, merged tails); an unrecognised shape ends in exit 2, never in a verdict. Code that tests buffer alignment is followed per alignment class (alternative chains of data loops; every way through encrypt paired with every way through decrypt); R-C01-SETUPFN: the shared setup function computes the same state from the nonce bytes on every path class; R-C01-NOSTATE: no function reachable from the entry points refers to writable global state. R-C01-SMALL: every message length 0..100 as straight paths - length stored, exactly the output bytes written, tag position, load before store per offset, no read outside the input. And relationally for every length 0..80: decrypt applied to encrypt's output-byte terms repeats encrypt's calls on the same inputs, returns the plaintext bytes bit for bit and compares the regenerated tag with the stored one.",
         "note": "Induction itself is the argument in DESIGN.md. A deviation from the specification made consistently in both directions keeps the round trip and is deliberately not reported by this "
                 "check. N0 IR of clang 14; alignment/endianness independence is C06's R-BYTEWISE; purity of helpers/permutation is C05/C19.",
         "technique": "relational symbolic path summaries (encrypt vs decrypt) in a GF(2) bit-provenance term domain with term substitution, per path class; affine cursor tracking",
@@ -118,7 +118,7 @@ CHECKS = {
                 "plaintext, clen-8); lock-step/tag position/load-before-store (the tag bytes are copied before the first plaintext store), and C03's guard / must-pass / argument rules on "
                 "the three SIV decrypt functions."
                 " R-C08-SETUPFN (setup is a function of the nonce bytes on every path class and every nonce bit enters the state), R-C08-NOSTATE (no writable global state reachable), R-C08-SMALL "
-                "(every length 0..100 as straight paths: i/o and memory discipline, refusal of inputs shorter than a tag).",
+                "(every length 0..100 as straight paths: i/o and memory discipline, refusal of inputs shorter than a tag; relationally for every length 0..80: decrypt's two passes are encrypt's two passes on the same inputs, plaintext recovered bit for bit, regenerated tag = stored tag).",
         "note": "Values not computed; tag sensitivity is a cipher property; check_tag itself is decided under C03/C04. Consistent deviations from the construction are C09's.",
         "technique": "relational symbolic path summaries (encrypt vs decrypt) in a GF(2) term domain; finite-class execution for the length guard",
     },
